@@ -6,7 +6,7 @@ Never imports brax/jax; it reads the AST of /repo.  A branch on an abstract valu
 unmodelled primitive or statement raises OutOfFragment (an AnalysisError: exit 2, never
 a verdict).  Two expressions have the same normal form iff they are equal as
 polynomials, i.e. for all real inputs (DESIGN.md section 1.2)."""
-import ast, os, sys, itertools, math as pymath
+import ast, os, sys, itertools, hashlib, math as pymath
 from fractions import Fraction
 import numpy as np
 
@@ -172,6 +172,7 @@ def field_mode(seed=0, decide=None, bool_default=None):
     FIELD['bool_default'] = bool_default
     FIELD['vals'] = {}
     FIELD['rng'] = random.Random(0xB8A5 ^ (seed * 2654435761 & 0xFFFFFFFF))
+    FIELD['seed'] = seed
     FIELD['decide'] = decide
 
 
@@ -193,12 +194,15 @@ def _fval_name(name):
     v = FIELD['vals'].get(name)
     if v is None:
         d = FIELD['decide'](name) if FIELD['decide'] is not None and isinstance(name, Atom) else None
+        # the image is a function of (seed, name) only -- independent of evaluation order
+        h = int.from_bytes(hashlib.blake2b(('%d|%r' % (FIELD['seed'], name.key if isinstance(name, Atom) else name)).encode(),
+                                           digest_size=16).digest(), 'big')
         if d is not None:
             v = int(d)
         elif isinstance(name, Atom) and name.kind in PREDICATE_KINDS:
-            v = FIELD['rng'].getrandbits(1) if FIELD['bool_default'] is None else FIELD['bool_default']
+            v = (h & 1) if FIELD['bool_default'] is None else FIELD['bool_default']
         else:
-            v = FIELD['rng'].randrange(2, FIELD['p'] - 1)
+            v = 2 + h % (FIELD['p'] - 3)
         FIELD['vals'][name] = v
     return v
 
@@ -1145,6 +1149,8 @@ class Interp:
         if isinstance(v, Struct):
             if a in v.f:
                 return v.f[a]
+            if a == '__dict__':
+                return dict(v.f)
             if a == 'vmap':
                 return ('bound', 'vmapproxy', v)
             if a == 'replace':
@@ -1440,7 +1446,11 @@ class Interp:
         for s in c.node.body:
             if isinstance(s, ast.AnnAssign) and s.value is not None and s.target.id not in vals:
                 vals[s.target.id] = None
-        return Struct(name, {f: vals.get(f) for f in fields}, home=c.mod)
+        out = {f: vals.get(f) for f in fields}
+        for k_, v_ in vals.items():      # keyword fields inherited from external base classes
+            if k_ not in out:
+                out[k_] = v_
+        return Struct(name, out, home=c.mod)
 
     def builtin(self, name, args, kw):
         if name == 'len':
